@@ -109,7 +109,7 @@ def make_hooks(P, f, brow, interp_calls=True):
             if mem is not None and mem[0] == 'func' and not any(isinstance(x, ast.While) for x in ast.walk(mem[1].node)):
                 g = mem[1]
                 env = {'self': OPQ}
-                for p_, a in zip(g.params[1:], e.args):
+                for p_, a in zip(g.params if g.kind == 'staticmethod' else g.params[1:], e.args):
                     env[p_] = I.expr(a)
                 sub = ordeval.Interp(env, I.hooks, I.check_axes)
                 try:
@@ -292,16 +292,24 @@ def leaf_level(P, R, m, trav, dims, kind):
                     I0, c0 = ordeval.run_fragment(prelude, env, hooks)
                     if c0 is not None:
                         raise AnalysisError(f'C03.b: {m.qualname} leaves before its emitting loops for a non-empty index')
-                    emitted.clear()
-                    for t in (loop.target.elts if isinstance(loop.target, ast.Tuple) else [loop.target]):
-                        env[t.id] = OPQ
-                    I, ctl = ordeval.run_fragment(loop.body, env, hooks)
+                    base_env = dict(env)
+                    worlds = []
+
+                    def run_world(ch, base_env=base_env, hooks=hooks, emitted=emitted, loop=loop):
+                        emitted.clear()
+                        e2 = dict(base_env)
+                        for t in (loop.target.elts if isinstance(loop.target, ast.Tuple) else [loop.target]):
+                            e2[t.id] = OPQ
+                        h2 = dict(hooks)
+                        h2['opaque_test'] = ch
+                        ordeval.run_fragment(loop.body, e2, h2)
+                        return tuple(bool(emitted.get(o, False)) for o in outs)
+                    worlds = ordeval.explore(run_world, max_worlds=16)
                 except ordeval.AxisMismatch as e:
                     R.bad('C03.b', m, e.node, f'comparison mixes dimensions: {e.a.name} with {e.b.name}')
                     return
                 except ordeval.NotComparisonOnly as e:
                     raise AnalysisError(f'C03.b: leaf classification in {m.qualname} is not comparison-only: {e}')
-                got = tuple(bool(emitted.get(o, False)) for o in outs)
                 if kind == 'intersects':
                     want = ((not disjoint),)
                 else:
@@ -310,9 +318,12 @@ def leaf_level(P, R, m, trav, dims, kind):
                     want = tuple(False for _ in outs)
                 if which == 'covered' and not nan:
                     want = (True,) if kind == 'intersects' else (True, False)
-                if got != want:
-                    key = ('C03.c' if nan else 'C03.b', which)
-                    problems.setdefault(key, []).append({'case': _fmt(combo), 'emitted_to': dict(zip(outs, got)), 'expected': dict(zip(outs, want))})
+                for script, got in worlds:
+                    if got != want:
+                        key = ('C03.c' if nan else 'C03.b', which)
+                        problems.setdefault(key, []).append({'case': _fmt(combo), 'emitted_to': dict(zip(outs, got)), 'expected': dict(zip(outs, want)),
+                                                             'branch_outcomes_on_unknown_values': list(script)})
+                        break
     R.count('orderings', total)
     R.exhaustive_sites[f'C03.b {m.name} n in {dims}'] = True
     R.sample({'site': f'C03.b/{m.name}', 'cases': total, 'outputs': outs, 'loops': [w for _, w in emit_loops]})
